@@ -265,12 +265,12 @@ def run(ctx):
             bound_p = 1000 * 2.0 ** -53 * rr / (1 - eL)
             bound_v = 1000 * 2.0 ** -53 * vv / (1 - eL)
             known = float(o["eL2"]) >= 0.9 and dp <= max(bound_p, 1e-6) and dv <= max(bound_v, 1e-9)
-            # second delimited mechanism: within 0.001 deg of 180 deg the long-period coefficient xlcof ~ tan(i/2) exceeds 30 and
+            # second delimited mechanism: within 0.002 deg of 180 deg the long-period coefficient xlcof ~ tan(i/2) exceeds 15 and
             # amplifies the half-ulp rounding of the inclination in radians (what is left after fix c31ed46: below 1 m)
             incl = float(r["env"]["incl_deg"])
-            near180 = incl >= 179.999 and dp <= 1e-3 and dv <= 1e-6
+            near180 = incl >= 179.998 and dp <= 1e-3 and dv <= 1e-6
             sig = ("C01:binary64-conditioning:eL2>=0.9" if known else
-                   "C01:binary64-inclination-rounding:i>=179.999" if near180 else "C01:exact:%s:%.6f" % (r["l1"][2:7], r["tau"]))
+                   "C01:binary64-inclination-rounding:i>=179.998" if near180 else "C01:exact:%s:%.6f" % (r["l1"][2:7], r["tau"]))
             ctx.violation("position/velocity differ from the exact (60-digit) Spacetrack Report #3 model by more than 1 mm / 1 um/s",
                           {"signature": sig,
                            "line1": r["l1"], "line2": r["l2"], "minutes": r["tau"], "pos_diff_km": dp, "vel_diff_kms": dv,
